@@ -16,7 +16,7 @@ META = dict(
     "every depth; trees up to depth 3 are additionally compared with an interpreter",
     functions=["qucumber/observables/observable.py: ObservableBase.__neg__/__add__/__sub__/__mul__/__radd__/__rsub__/__rmul__, SumObservable, ProdObservable, statistics_from_samples"],
     bounds=dict(quick="7 overloads x {observable, int, float, numpy.float64, bool, 0, negative} operands; batch of 3 samples; all trees of depth <= 2 and 60 trees of depth 3 over 2 leaves and 4 scalars",
-                thorough="batch of 5 samples, 400 trees of depth 3-4"),
+                thorough="batch of 5 samples, 960 random trees of depth 2..6"),
     outside=["scalar operands are concrete values of each accepted Python kind (a Python float cannot be symbolic); the observable operands are fully symbolic", "leaf observables other than through their apply values (C08/C09)"],
     stubs=["leaf observables -> stubs returning symbolic per-sample values", "torch -> vf.symtorch"],
 )
@@ -158,9 +158,10 @@ def trees(B, G, depth=3, count=60, nsamp=2, seed=0):
 
 def jobs(tier):
     J = [dict(name="step", module="checks.c16", scenario="step", kwargs=dict(nsamp=3 if tier == "quick" else 5))]
-    n = 3 if tier == "quick" else 10
+    n = 3 if tier == "quick" else 16
     for k in range(n):
-        J.append(dict(name="trees-%d" % k, module="checks.c16", scenario="trees", kwargs=dict(depth=2 + (k % 2) + (1 if tier != "quick" and k > 5 else 0), count=20 if tier == "quick" else 40, seed=k)))
+        depth = 2 + (k % 2) if tier == "quick" else 2 + (k % 5)  # thorough: depths 2..6
+        J.append(dict(name="trees-%d" % k, module="checks.c16", scenario="trees", kwargs=dict(depth=depth, count=20 if tier == "quick" else 60, seed=k)))
     return J
 
 
